@@ -10,6 +10,7 @@ cd /verif && bin/check $ID $TIER > /tmp/seedtest_$ID.out 2>&1; RC=$?
 cp /verif/evidence/$ID.json /tmp/seedtest_$ID.mutant_evidence.json 2>/dev/null
 [ -f /tmp/seedtest_$ID.evidence ] && cp /tmp/seedtest_$ID.evidence /verif/evidence/$ID.json
 cd /repo && git checkout -- . && git clean -fdq
+git -C /verif checkout -- coq/Extracted 2>/dev/null   # the facts regenerated from the changed tree
 grep -c '^VIOLATION' /tmp/seedtest_$ID.out | sed "s/^/violation_lines=/"
 grep '^VIOLATION' /tmp/seedtest_$ID.out | head -8
 tail -1 /tmp/seedtest_$ID.out
